@@ -377,6 +377,20 @@ var Customs = map[string]CustomFn{
 		return 10*x + y, nil
 	},
 	"boom": func(a []interface{}) (interface{}, error) { return nil, ErrOp },
+	"cat": func(a []interface{}) (interface{}, error) { // variadic, order sensitive: sum of (i+1)*3^i*a[i]
+		var s, w int64 = 0, 1
+		for i, x := range a {
+			v, ok := x.(int64)
+			if !ok {
+				return nil, ErrBuiltin
+			}
+			s += int64(i+1) * w * v
+			w *= 3
+		}
+		return s, nil
+	},
+	"t0": func(a []interface{}) (interface{}, error) { return true, nil },     // zero-operand, succeeds
+	"i0": func(a []interface{}) (interface{}, error) { return int64(7), nil }, // zero-operand, succeeds
 	"last": func(a []interface{}) (interface{}, error) { // variadic: its last argument
 		if len(a) == 0 {
 			return nil, ErrBuiltin
